@@ -44,6 +44,8 @@ type Config struct {
 	ConcMax     int
 	Witnesses   int
 	UnwindViol  bool
+	Lazy        bool
+	Debug       bool
 }
 
 type Engine struct {
@@ -80,6 +82,7 @@ type Engine struct {
 	initDone     bool
 	kfSeen       map[string]bool
 	initMode     bool
+	cheapDischarged int
 	redirect     map[string]string
 }
 
@@ -93,6 +96,10 @@ type ObservedOut struct {
 	Val   string `json:"val"`
 }
 
+var dumped bool
+var forkSites = map[string]int{}
+var noMergeArms = map[string]int{}
+
 type forkSignal struct{ states []*State }
 type abortPath struct{ reason string } // path ends (infeasible assume, violation recorded, ...)
 type unsupported struct{ msg string }
@@ -102,9 +109,11 @@ func (e *Engine) info(fn *ssa.Function) *fnInfo {
 		return fi
 	}
 	fi := &fnInfo{idx: map[ssa.Value]int{}}
+	var curBlock *ssa.BasicBlock
 	add := func(v ssa.Value) {
 		fi.idx[v] = fi.n
 		fi.n++
+		fi.defBlock = append(fi.defBlock, curBlock)
 	}
 	for _, p := range fn.Params {
 		add(p)
@@ -113,6 +122,7 @@ func (e *Engine) info(fn *ssa.Function) *fnInfo {
 		add(fv)
 	}
 	for _, b := range fn.Blocks {
+		curBlock = b
 		for _, in := range b.Instrs {
 			if v, ok := in.(ssa.Value); ok {
 				add(v)
@@ -250,6 +260,13 @@ func (e *Engine) curInstr(s *State) ssa.Instruction {
 
 func (e *Engine) sat(s *State, extra ...*Term) (Result, Model) {
 	as := append(append([]*Term(nil), s.pc...), extra...)
+	if e.cfg.Debug {
+		e.solver.Ctx = e.pos(e.curInstr(s))
+		if in := e.curInstr(s); in != nil {
+			e.solver.Ctx += fmt.Sprintf(" {%v} steps=%d pc=%d", in, s.steps, len(s.pc))
+		}
+
+	}
 	return e.solver.Check(as, true)
 }
 
@@ -267,14 +284,17 @@ func (e *Engine) feasible(s *State, c *Term) Result {
 		}
 		return Unsat
 	}
-	if s.model != nil {
-		if r := s.model.Eval(c, map[*Term]*Term{}); r != nil && r.IsTrue() {
+	if cheapFalse(c) {
+		return Unsat
+	}
+	for _, m := range s.models {
+		if r := m.Eval(c, map[*Term]*Term{}); r != nil && r.IsTrue() {
 			return Sat
 		}
 	}
 	r, m := e.sat(s, c)
-	if r == Sat && s.model == nil && m != nil {
-		s.model = m
+	if r == Sat && m != nil {
+		s.addModel(m)
 	}
 	return r
 }
@@ -290,6 +310,9 @@ func (e *Engine) decide(s *State, c *Term) bool {
 	rt := e.feasible(s, c)
 	var rf Result
 	if rt == Unsat {
+		if e.feasible(s, Not(c)) == Unsat {
+			panic(abortPath{"infeasible"})
+		}
 		s.facts[c.ID] = TFalse
 		return false
 	}
@@ -300,6 +323,7 @@ func (e *Engine) decide(s *State, c *Term) bool {
 	}
 	// fork
 	e.forks++
+	forkSites["decide@"+e.pos(e.curInstr(s))]++
 	o := s.clone()
 	s.addPC(c)
 	o.addPC(Not(c))
@@ -348,6 +372,7 @@ func (e *Engine) concretize(s *State, t *Term, why string) uint64 {
 		return vals[0].CV
 	}
 	e.forks++
+	forkSites["concretize("+why+")@"+e.pos(e.curInstr(s))]++
 	sort.Slice(vals, func(i, j int) bool { return vals[i].CV < vals[j].CV })
 	var out []*State
 	for i, v := range vals {
@@ -517,6 +542,10 @@ func (e *Engine) check(s *State, cond *Term, kind, msg string) {
 	if f, ok := s.facts[cond.ID]; ok && f.IsTrue() {
 		return
 	}
+	if cheapTrue(cond) {
+		e.cheapDischarged++
+		return
+	}
 	if kind == "assert" {
 		e.assertsChecked++
 	} else {
@@ -601,6 +630,7 @@ type stepResult struct {
 	states []*State
 	// branch
 	cond *Term
+	lazy bool
 }
 
 func (e *Engine) run(s *State, stop *stopPoint, depth int) []*State {
@@ -651,10 +681,28 @@ func (e *Engine) run(s *State, stop *stopPoint, depth int) []*State {
 							break inner
 						}
 					}
-					work = append(work, rF...)
-					work = append(work, rT...)
+					noMergeArms[fmt.Sprintf("%s T=%d F=%d", e.pos(ifi), len(rT), len(rF))]++
+					for _, st := range append(rF, rT...) {
+						if r.lazy {
+							if rr, m := e.sat(st); rr == Unsat {
+								e.pathsInfeasible++
+								continue
+							} else if rr == Sat && m != nil {
+								st.addModel(m)
+							}
+						}
+						work = append(work, st)
+					}
 				} else {
-					work = append(work, sF, sT)
+					for _, st := range []*State{sF, sT} {
+						if r.lazy {
+							if rr, _ := e.sat(st); rr == Unsat {
+								e.pathsInfeasible++
+								continue
+							}
+						}
+						work = append(work, st)
+					}
 				}
 				break inner
 			}
@@ -679,6 +727,9 @@ func (e *Engine) jump(s *State, f *Frame, to *ssa.BasicBlock) {
 	f.pc = 0
 	f.visits[to.Index]++
 	if f.visits[to.Index] > e.cfg.Unwind {
+		if r, _ := e.sat(s); r == Unsat {
+			panic(abortPath{"infeasible"})
+		}
 		if e.cfg.UnwindViol {
 			e.fail(s, "unwind", fmt.Sprintf("loop bound %d exceeded in %s", e.cfg.Unwind, f.fn.String()))
 		}
@@ -736,6 +787,10 @@ func (e *Engine) step(s *State) (res stepResult) {
 	}()
 	s.steps++
 	if s.steps > e.cfg.MaxSteps {
+		if r, _ := e.sat(s); r == Unsat {
+			e.pathsInfeasible++
+			return stepResult{kind: stepEnd}
+		}
 		e.addInconclusive(s, "max steps exceeded")
 		return stepResult{kind: stepEnd}
 	}
@@ -761,8 +816,15 @@ func (e *Engine) step(s *State) (res stepResult) {
 			e.takeBranch(s, fct.IsTrue())
 			return stepResult{kind: stepCont}
 		}
+		if e.cfg.Merge && e.cfg.Lazy && !e.loopControlling(f.info, f.block) {
+			return stepResult{kind: stepBranch, cond: c, lazy: true}
+		}
 		rt := e.feasible(s, c)
 		if rt == Unsat {
+			if e.feasible(s, Not(c)) == Unsat {
+				e.pathsInfeasible++
+				return stepResult{kind: stepEnd} // state itself is infeasible (lazy arm)
+			}
 			s.facts[c.ID] = TFalse
 			e.takeBranch(s, false)
 			return stepResult{kind: stepCont}
@@ -851,4 +913,39 @@ func (e *Engine) newFrame(s *State, fn *ssa.Function, args []Value, binds []Valu
 	}
 	e.fnsExecuted[fn.String()]++
 	return f
+}
+
+// loopControlling: can the If block be reached again from one of its successors without
+// passing through its immediate post-dominator? (then feasibility pruning bounds the unrolling)
+func (e *Engine) loopControlling(fi *fnInfo, b *ssa.BasicBlock) bool {
+	if fi.loopCtl == nil {
+		fi.loopCtl = map[*ssa.BasicBlock]bool{}
+	}
+	if v, ok := fi.loopCtl[b]; ok {
+		return v
+	}
+	p := fi.ipd[b]
+	res := false
+	if p == nil {
+		res = true
+	} else {
+		seen := map[*ssa.BasicBlock]bool{p: true}
+		var st []*ssa.BasicBlock
+		st = append(st, b.Succs...)
+		for len(st) > 0 && !res {
+			x := st[len(st)-1]
+			st = st[:len(st)-1]
+			if x == b {
+				res = true
+				break
+			}
+			if seen[x] {
+				continue
+			}
+			seen[x] = true
+			st = append(st, x.Succs...)
+		}
+	}
+	fi.loopCtl[b] = res
+	return res
 }
